@@ -444,8 +444,8 @@ MUTANTS = [
          old="                kernel[tup] = reduced_factor.values / sum(reduced_factor.values)\n            self.transition_models[var] = kernel\n\n    def _get_kernel_from_markov_model",
          new="                kernel[tup] = reduced_factor.values\n            self.transition_models[var] = kernel\n\n    def _get_kernel_from_markov_model"),
     dict(kind="break", name="gibbs-zip-with-blanket-only", file=SP, expect="C07.weights",
-         old="            for tup in itertools.product(*[range(card) for card in other_cards]):\n                states = [State(v, s) for v, s in zip(other_vars, tup) if v in scope]",
-         new="            blanket_vars = [v for v in other_vars if v in scope]\n            for tup in itertools.product(*[range(card) for card in other_cards]):\n                states = [State(v, s) for v, s in zip(blanket_vars, tup)]"),
+         old="                    State(v, factor.no_to_name[v][s])\n                    for v, s in zip(other_vars, tup)\n                    if v in scope\n",
+         new="                    State(v, factor.no_to_name[v][s])\n                    for v, s in zip([w for w in other_vars if w in scope], tup)\n"),
     dict(kind="twin", name="forward-drop-columns-kw", file=SP,
          old="        samples_df = _return_samples(sampled, self.state_names_map)\n        if not include_latents:\n            samples_df.drop(self.model.latents, axis=1, inplace=True)\n        return samples_df\n\n    def rejection_sample",
          new="        samples_df = _return_samples(sampled, self.state_names_map)\n        if include_latents:\n            return samples_df\n        samples_df.drop(self.model.latents, axis=1, inplace=True)\n        return samples_df\n\n    def rejection_sample"),
